@@ -4,9 +4,10 @@ from __future__ import annotations
 import streams
 
 ID = "C12"
-THEOREMS = ["build_calls_nothing", "value_calls_once", "value_changes_nothing_else", "root_recoverable", "no_or_many_roots_rejected", "inv_run"]
-LEANCHECKER_MODULES = ["Fadl.Props.C12", "Fadl.Lemmas.StreamInv"]  # re-checked by leanchecker in the thorough tier
-EXPLANATION = ("Theorems: no operation other than value() appends to the call log (build_calls_nothing); in every reachable state value() appends exactly one invocation, of the override if given else of the executor of the dataset the stream was derived from, with removeEmptyMD of the stream's query and the title (value_calls_once; the executor invariant survives the shallow copy QMetaData makes); the root dataset is recoverable (root_recoverable) and 0 / >= 2 roots are rejected. Correspondence: call log and executor of every stream after every step. Oracle (real asyncio): exactly one call per value(), right dataset, query = declarative strip-empty reference, title, returned value / raised exception identity, concurrently awaited calls completed in a generated permutation. PARTIAL: delivery of an awaited coroutine's outcome to its awaiter and make_sync's thread hand-off are asyncio/runtime behaviour, exercised by the oracle, not proved.")
+THEOREMS = ["build_calls_nothing", "value_calls_once", "value_changes_nothing_else", "root_recoverable", "no_or_many_roots_rejected", "inv_run",
+            "conc_state", "complete_changes_nothing", "start_invokes_once", "task_gets_own_outcome", "invocation_task_bijective", "cinv_run"]
+LEANCHECKER_MODULES = ["Fadl.Props.C12", "Fadl.Props.C12Conc", "Fadl.Lemmas.StreamInv"]  # re-checked by leanchecker in the thorough tier
+EXPLANATION = ("Theorems: no operation other than value() appends to the call log (build_calls_nothing); in every reachable state value() appends exactly one invocation, of the override if given else of the executor of the dataset the stream was derived from, with removeEmptyMD of the stream's query and the title (value_calls_once; the executor invariant survives the shallow copy QMetaData makes); the root dataset is recoverable (root_recoverable) and 0 / >= 2 roots are rejected. Correspondence: call log and executor of every stream after every step. Oracle (real asyncio): exactly one call per value(), right dataset, query = declarative strip-empty reference, title, returned value / raised exception identity, concurrently awaited calls completed in a generated permutation. Concurrency (Props/C12Conc.lean over the event model Model/Concurrent.lean: op / start / complete events in ANY order): conc_state - the streams, the heap and the log of executor invocations of a concurrent history are those of the sequential history in which every value_async is a value() at the point where it was started, completions change nothing (complete_changes_nothing); start_invokes_once - in every reachable concurrent state a start appends exactly the one invocation value_calls_once describes; task_gets_own_outcome - a task that ended with an outcome from invocation c is the task that made invocation c and the outcome is what a completion event of c delivered; invocation_task_bijective. The event model is executable (driver op conc) and every generated history with concurrently awaited batches is run through it: final state and what each awaiting call got (named by invocation number) must equal the real asyncio run. PARTIAL: delivery of an awaited coroutine's outcome to its awaiter and make_sync's thread hand-off are asyncio/runtime behaviour, exercised by the oracle, not proved.")
 ASSUMPTIONS = ["asyncio delivers an awaited coroutine's outcome to its awaiter; make_sync runs the coroutine to completion (runtime, exercised not proved)"]
 RULE = (
     "seeded histories (harness/streams.py: gen_history) of 4-20 operations over a forest of streams on 1-4 datasets "
